@@ -103,6 +103,28 @@ func rebuild(v interface{}, s *intStream) interface{} {
 	return v
 }
 
+// keeper remembers byte results together with a copy taken at once; verify() reports a result that a later call overwrote.
+type keeper struct {
+	names  []string
+	got    [][]byte
+	copies [][]byte
+}
+
+func (k *keeper) add(name string, b []byte) {
+	k.names = append(k.names, name)
+	k.got = append(k.got, b)
+	k.copies = append(k.copies, append([]byte(nil), b...))
+}
+
+func (k *keeper) verify() *Failure {
+	for i := range k.got {
+		if !bytes.Equal(k.got[i], k.copies[i]) {
+			return failf("result-overwritten-by-later-call", "the bytes returned by %s changed after later encoder calls: now %q, were %q", k.names[i], k.got[i], k.copies[i])
+		}
+	}
+	return nil
+}
+
 // chunkWriter records what is written to it, in chunks.
 type chunkWriter struct {
 	chunks [][]byte
@@ -288,7 +310,9 @@ func checkC16(c CaseC16, info *Info) *Failure {
 	}
 	m2 := rebuild(m, s).(map[string]interface{})
 	m3 := rebuild(m, s).(map[string]interface{})
+	keep := &keeper{}
 	x1, e1 := mxj.Map(m).Xml()
+	keep.add("Map.Xml", x1)
 	x2, e2 := mxj.Map(m2).Xml()
 	x3, e3 := mxj.Map(m3).Xml()
 	x4, _ := mxj.Map(m2).Xml()
@@ -299,6 +323,7 @@ func checkC16(c CaseC16, info *Info) *Failure {
 		return failf("xml-not-deterministic", "equal Maps encode differently:\n%q\n%q\n%q\n%q", x1, x2, x3, x4)
 	}
 	xi1, _ := mxj.Map(m).XmlIndent(c.Prefix, c.Ind)
+	keep.add("Map.XmlIndent", xi1)
 	xi2, _ := mxj.Map(m2).XmlIndent(c.Prefix, c.Ind)
 	xi3, _ := mxj.Map(m3).XmlIndent(c.Prefix, c.Ind)
 	if !bytes.Equal(xi1, xi2) || !bytes.Equal(xi2, xi3) {
@@ -326,6 +351,7 @@ func checkC16(c CaseC16, info *Info) *Failure {
 	ms := mxj.Maps{mxj.Map(m), mxj.Map(m2), mxj.Map(m3)}
 	for _, safe := range []bool{false, true} {
 		j1, je1 := mxj.Map(m).Json(safe)
+		keep.add("Map.Json", j1)
 		j2, _ := mxj.Map(m2).Json(safe)
 		j3, _ := mxj.Map(m3).Json(safe)
 		if je1 != nil {
@@ -335,6 +361,7 @@ func checkC16(c CaseC16, info *Info) *Failure {
 			return failf("json-not-deterministic", "%q\n%q\n%q", j1, j2, j3)
 		}
 		ji, _ := mxj.Map(m2).JsonIndent(c.Prefix, c.Ind, safe)
+		keep.add("Map.JsonIndent", ji)
 		var cb bytes.Buffer
 		if err := json.Compact(&cb, ji); err != nil || !bytes.Equal(cb.Bytes(), j1) {
 			return failf("indent-differs-from-compact", "JsonIndent(safe=%v) %q compacts to %q, Json gives %q", safe, ji, cb.Bytes(), j1)
@@ -345,6 +372,7 @@ func checkC16(c CaseC16, info *Info) *Failure {
 		}
 		w = chunkWriter{}
 		raw, err := mxj.Map(m).JsonWriterRaw(&w, safe)
+		keep.add("Map.JsonWriterRaw", raw)
 		if err != nil || !bytes.Equal(raw, j1) || !bytes.Equal(w.Bytes(), j1) {
 			return failf("writer-mismatch", "JsonWriterRaw(safe=%v) wrote %q returned %q, Json returned %q", safe, w.Bytes(), raw, j1)
 		}
@@ -354,6 +382,7 @@ func checkC16(c CaseC16, info *Info) *Failure {
 		}
 		w = chunkWriter{}
 		raw, err = mxj.Map(m).JsonIndentWriterRaw(&w, c.Prefix, c.Ind, safe)
+		keep.add("Map.JsonIndentWriterRaw", raw)
 		if err != nil || !bytes.Equal(raw, ji) || !bytes.Equal(w.Bytes(), ji) {
 			return failf("writer-mismatch", "JsonIndentWriterRaw(safe=%v) wrote %q returned %q, JsonIndent returned %q", safe, w.Bytes(), raw, ji)
 		}
@@ -406,6 +435,19 @@ func checkC16(c CaseC16, info *Info) *Failure {
 	}
 	if mxj.Map(m).StringIndent() != mxj.Map(m2).StringIndent() || mxj.Map(m).StringIndent(2) != mxj.Map(m3).StringIndent(2) {
 		return failf("stringindent-not-deterministic", "StringIndent differs for equal Maps")
+	}
+	// different, shorter encodings afterwards must not disturb the results handed out before
+	for _, other := range []mxj.Map{{"z": "s"}, {"zz": []interface{}{"t", true}, "-a": "1"}} {
+		other.Xml()
+		other.XmlIndent("", " ")
+		other.Json()
+		other.Json(true)
+		other.JsonIndent("", " ")
+		other.JsonWriterRaw(&chunkWriter{})
+		other.JsonIndentWriterRaw(&chunkWriter{}, "", " ", true)
+	}
+	if f := keep.verify(); f != nil {
+		return f
 	}
 	ch, at := maxFan(m)
 	info.ClassIf(ch >= 3, "element with >=3 children")
